@@ -204,7 +204,7 @@ pub open spec fn eval_view(m: CView, e: Expression) -> Option<il::Constant> {
     match subst_seq(e, expr_scalars(e), m) {
         None => None,
         Some(e2) => match eval_spec(e2, il::empty_env()) {
-            EvalR::Val(w, v) => Some(mk_const(w, v)),
+            EvalR::Val(w, v) => if w <= usize::MAX && mk_const(w, v).wf() { Some(mk_const(w, v)) } else { None },
             _ => None,
         },
     }
@@ -322,7 +322,7 @@ pub proof fn lemma_eval_view_val(m: CView, e: Expression)
     requires eval_view(m, e) is Some,
     ensures
         all_known(m, expr_scalars(e)),
-        eval_spec(e, cenv(m)) matches EvalR::Val(w, v) && eval_view(m, e) == Some(mk_const(w, v)),
+        eval_spec(e, cenv(m)) matches EvalR::Val(w, v) && eval_view(m, e) == Some(mk_const(w, v)) && w <= usize::MAX,
 {
     let ss = expr_scalars(e);
     let e2 = subst_seq(e, ss, m).unwrap();
@@ -340,8 +340,70 @@ pub proof fn lemma_eval_view_env(m: CView, e: Expression, env: Env)
         eval_view(m, e) is Some,
         forall|i: int| 0 <= i < expr_scalars(e).len() ==> env(#[trigger] expr_scalars(e)[i]) == cenv(m)(expr_scalars(e)[i]),
     ensures
-        eval_spec(e, env) matches EvalR::Val(w, v) && eval_view(m, e) == Some(mk_const(w, v)),
+        eval_spec(e, env) matches EvalR::Val(w, v) && eval_view(m, e) == Some(mk_const(w, v)) && w <= usize::MAX,
 {
     lemma_eval_view_val(m, e);
     lemma_env_agree(e, env, cenv(m));
+}
+
+/// unfolding of subst_seq at a prefix of `ss`
+pub proof fn lemma_subst_step(e: Expression, ss: Seq<il::Scalar>, m: CView, n: int)
+    requires 0 <= n < ss.len(),
+    ensures
+        subst_seq(e, ss.take(n + 1), m) == (match subst_seq(e, ss.take(n), m) {
+            None => None::<Expression>,
+            Some(e1) => match known(m, ss[n]) {
+                None => None::<Expression>,
+                Some(c) => replace_spec(e1, ss[n], Expression::Constant(c)),
+            },
+        }),
+{
+    assert(ss.take(n + 1).drop_last() =~= ss.take(n));
+    assert(ss.take(n + 1).last() == ss[n]);
+}
+
+/// once a prefix fails, the whole substitution fails
+pub proof fn lemma_subst_prefix_none(e: Expression, ss: Seq<il::Scalar>, m: CView, n: int)
+    requires 0 <= n <= ss.len(),
+    ensures subst_seq(e, ss.take(n), m) is None ==> subst_seq(e, ss, m) is None,
+    decreases ss.len() - n,
+{
+    if subst_seq(e, ss.take(n), m) is Some {
+    } else if n == ss.len() {
+        assert(ss.take(n) =~= ss);
+    } else {
+        lemma_subst_step(e, ss, m, n);
+        lemma_subst_prefix_none(e, ss, m, n + 1);
+    }
+}
+
+/// the executable result of eval agrees with eval_view once the substitution has gone through
+pub proof fn lemma_eval_view_result(m: CView, e: Expression, e2: Expression, res: Result<il::Constant, Error>)
+    requires subst_seq(e, expr_scalars(e), m) == Some(e2), il::eval_agrees(res, eval_spec(e2, il::empty_env())),
+    ensures
+        res matches Ok(c) ==> eval_view(m, e) == Some(c) && c.wf(),
+        res is Err ==> eval_view(m, e) is None,
+{
+    broadcast use {axiom_biguint_ext, axiom_biguint_of};
+    match eval_spec(e2, il::empty_env()) {
+        EvalR::Val(w, v) => {
+            let c = res->Ok_0;
+            assert(c.bits as nat == w && c.value@ == v);
+            assert(mk_const(w, v).value@ == v);
+            assert(mk_const(w, v).bits == c.bits);
+            assert(mk_const(w, v) == c);
+        }
+        _ => {}
+    }
+}
+
+/// eval_view's results are well-formed constants with the reported value
+pub proof fn lemma_eval_view_sound(m: CView, e: Expression, c: il::Constant)
+    requires eval_view(m, e) == Some(c),
+    ensures
+        all_known(m, expr_scalars(e)),
+        eval_spec(e, cenv(m)) == EvalR::Val(c.bits as nat, c.value@),
+{
+    broadcast use {axiom_biguint_of};
+    lemma_eval_view_val(m, e);
 }
